@@ -209,6 +209,23 @@ fn gen_ctor(_rng: &mut Rng, _thorough: bool, out: &mut Vec<String>) {
             out.push(format!("c12.noise {}", v.iter().map(|x| b(*x).to_string()).collect::<Vec<_>>().join(" ")));
         }
     }
+    // F13 (fixed): every NaN encoding (negative quiet, signalling, all-ones payload) is rejected in every slot
+    for slot in 0..8 {
+        for nan in [0xfff8_0000_0000_0000u64, 0x7ff0_0000_0000_0001, 0xffff_ffff_ffff_ffff, 0x7ff4_0000_dead_beef] {
+            let mut v = nominal;
+            v[slot] = f64::from_bits(nan);
+            out.push(format!("c12.noise {}", v.iter().map(|x| b(*x).to_string()).collect::<Vec<_>>().join(" ")));
+        }
+    }
+    // two NaNs at once, and NaN next to an out-of-range value: the first failing check (declaration order) reports
+    for (i, j) in [(0usize, 1usize), (1, 3), (2, 0), (4, 7), (7, 2), (3, 5)] {
+        let mut v = nominal;
+        v[i] = f64::NAN;
+        v[j] = f64::NAN;
+        out.push(format!("c12.noise {}", v.iter().map(|x| b(*x).to_string()).collect::<Vec<_>>().join(" ")));
+        v[j] = -1.0;
+        out.push(format!("c12.noise {}", v.iter().map(|x| b(*x).to_string()).collect::<Vec<_>>().join(" ")));
+    }
     for d in [1e-10, 1e-6, 1e-2, 0.999] {
         let mut v = nominal;
         v[1] = d;
